@@ -5,16 +5,87 @@ import os
 HOME = os.path.dirname(os.path.dirname(os.path.abspath(__file__)))
 
 # id -> (technique, level text, level note, design ref)
+T_WHOLE = "whole-domain explicit enumeration of the real functions against a reference model"
+T_SMALL = "small-scope exhaustive enumeration (every combination over a stated finite alphabet and bound) executed on the implementation"
 CLAIMED = {
-    "C05": (
-        "whole-domain explicit enumeration of the real functions against a reference model",
-        "Every one of the 2^24 colours (luminance; ratio against black and white), all grey x grey, cube^2 and "
-        "named^2 pairs and every float adjacent to each label threshold is executed on the implementation and "
-        "compared with an independent WCAG model; the input space of the unary functions is covered completely.",
-        "Trusted: mc/oracle/wcag.py (decimal, 50 digits). Ratio of arbitrary pairs is decided on the listed "
-        "sub-lattices only (the function is a composition of the exhaustively checked luminance).",
-        "DESIGN.md 4/C05",
-    ),
+    "C01": (T_SMALL + "; reference-model oracle (WCAG)",
+        "Every (text, background) of a derived threshold-centred pair lattice x all 12 settings, every accepted spelling of a sub-lattice, "
+        "and the three observation points are executed and the success flag compared with an independent WCAG verdict on the returned "
+        "value as a CSS parser reads it; thorough adds grey x grey and named x named.",
+        "Decided on the stated lattices, not on all 2^48 pairs. Trusted: mc/oracle/wcag.py, css_color.py.", "DESIGN.md 4/C01"),
+    "C02": (T_SMALL + "; relational oracle on exact WCAG ratios",
+        "Same lattice and spelling layer as C01: already-readable pairs must come back unchanged with success, all others must not lose contrast.",
+        "Lattice-bounded. Trusted: mc/oracle/wcag.py, css_color.py.", "DESIGN.md 4/C02"),
+    "C03": (T_SMALL + "; witness found by the harness's own exhaustive scan of the text's lightness line",
+        "For every pair of the lattice the harness scans 4097 points of the text's OKLCH lightness line with independent OKLCH / CIEDE2000 / WCAG "
+        "models; every (pair, setting) with a witness must succeed in every mode and stay within dE00 2.0.",
+        "Witnesses between grid points are not found (such pairs are not judged). Trusted: oklab.py, cielab.py, ciede2000.py, wcag.py.", "DESIGN.md 4/C03"),
+    "C04": (T_SMALL + "; harness-side step log of the multi-phase search (attribute replacement, no source hook)",
+        "Every mode-0 run of the lattice is measured against the 5.0 cap on the library's and the reference metric; the three documented search "
+        "routines are called directly over a tolerance/target/schedule alphabet; every search step inside mode 0/1/2 runs is logged and chained.",
+        "Lattice-bounded; step-chain sub-check skipped (reported) if generate_accessible_color is renamed.", "DESIGN.md 4/C04"),
+    "C05": (T_WHOLE,
+        "Every one of the 2^24 colours (luminance; ratio against black and white), all grey x grey, cube^2 and named^2 pairs and every float adjacent "
+        "to each label threshold is executed on the implementation and compared with an independent WCAG model.",
+        "Trusted: mc/oracle/wcag.py (decimal, 50 digits). Ratio of arbitrary pairs is decided on the listed sub-lattices (a composition of the "
+        "exhaustively checked luminance).", "DESIGN.md 4/C05"),
+    "C06": (T_WHOLE + " + small-scope format-mapping lattice",
+        "format_color on every colour of the tier's domain (thorough: all 2^24) x {hex, rgb(), hsl(), tuple}; each output is re-read by the library's "
+        "own parser and by a CSS Color 3 reference parser; the spelling x outcome x setting lattice decides the format mapping.",
+        "Quick tier covers every colour with a 0/255 channel + greys + 17^3 cube + named; thorough all 2^24. Trusted: css_color.py.", "DESIGN.md 4/C06"),
+    "C07": (T_WHOLE + " for hex (2^24 x variants, 4096 x all case patterns) and keywords; " + T_SMALL + " for the infinite functional families",
+        "All six-digit and three-digit hex strings, all keywords x case x padding, rgb()/rgba()/hsl()/hsla() over per-position value sweeps, the full "
+        "whitespace product at the 8 optional positions and every case pattern of the function names are parsed and compared with a CSS Color 3 "
+        "reference parser working in exact rationals.",
+        "Infinite decimal expansions are decided up to the stated alphabet; exponent notation and Level 4 syntax out of scope by the statement.", "DESIGN.md 4/C07"),
+    "C08": (T_SMALL + " over generated stylesheets (programs) run through the real command; observation-based oracle",
+        "Every sequence of <= 2 (thorough 3) rule items over a 26-item alphabet x wrappers x --mode x --premium x --default-bg is run through the real "
+        "CLI in a fresh cwd; stdout counts, report cards and the written file (read by an independent tokenizer and var() resolver) must agree with "
+        "each other, with the Python API and with WCAG.",
+        "Bounded by the item alphabet and sequence length. Two genuine defects are recorded as known findings (shared custom property, invalid "
+        "declaration). Trusted: css_tokens.py, html_tree.py, css_color.py, wcag.py.", "DESIGN.md 4/C08"),
+    "C09": (T_SMALL + " over generated stylesheets; structural token-value comparison of input and output",
+        "Rule items interleaved with a 20-item passthrough alphabet in every order (<= 2 passthrough around <= 2/3 rule items) x settings, single file and "
+        "directory invocation: input bytes/inode/mtime unchanged, only the documented files created, and the normalised token trees of input and "
+        "output equal outside the masked colour values.",
+        "Bounded by the alphabets. One known finding (invalid declaration drops the output). Trusted: css_tokens.py (cross-checked against tinycss2 in selftest).", "DESIGN.md 4/C09"),
+    "C10": (T_WHOLE + "; dense grid for the inverse",
+        "Forward conversion and round trip of all 2^24 colours against the OKLab reference model, the inverse on a full L x C x H grid, and the safe "
+        "variants on all valid inputs of the tier and on an alphabet of finite invalid triples.",
+        "Trusted: mc/oracle/oklab.py (published matrices). Inverse judged within one unit on the grid only.", "DESIGN.md 4/C10"),
+    "C11": (T_WHOLE + " for Lab; " + T_SMALL + " for CIEDE2000 pairs (unit neighbours of every lattice colour; thorough: of all 2^24)",
+        "Lab of all 2^24 colours against a CIE reference model; CIEDE2000 on the 34 published pairs (fed through a harness-side seam), every colour "
+        "against its unit-step neighbours, cube^2, near-neutral and hue-wrap-straddling pairs, both argument orders.",
+        "Pairs of the 2^48 beyond the listed families are not covered. Trusted: cielab.py, ciede2000.py (validated on the published data).", "DESIGN.md 4/C11"),
+    "C12": ("exhaustive enumeration of all operation sequences (entry lists) up to a length bound over an entry alphabet, against the single-pair API as reference model",
+        "All lists of length 0..3 (thorough 4) over an 11-entry alphabet x mode x very_readable: same length and order, every valid entry equal to "
+        "ColorPair.make_readable alone (computed in a pristine interpreter) with the WCAG label of the returned colour, invalid entries unchanged.",
+        "Bounded by alphabet and length. Trusted: wcag.py, css_color.py.", "DESIGN.md 4/C12"),
+    "C13": (T_SMALL + "; exact rational source-over blend as oracle",
+        "Every (foreground, alpha, opaque background) of cube(4) x 9 alphas x 8 backgrounds in each translucent spelling, and translucent backgrounds, "
+        "through ColorPair: composite within 1.5 of the exact blend over the pair's own background, alpha 0/1 exact, readability and fixes on the composite.",
+        "Bounded by the alphabets. Trusted: css_color.py.", "DESIGN.md 4/C13"),
+    "C14": ("exhaustive enumeration of all strings up to a token-count bound and all sequences up to a length bound over near-miss alphabets",
+        "Every string of <= 4 (thorough 5) tokens over a 29-token near-miss CSS alphabet and every tuple/list of length 0..4 (5) over a 21-element "
+        "alphabet goes through Color / ColorPair / make_readable / make_readable_bulk: nothing raises, invalid input is reported as the statement says.",
+        "Bounded by alphabet and length; nested sequences are outside the statement.", "DESIGN.md 4/C14"),
+    "C16": (T_SMALL + "; relational oracle between modes / strictness settings",
+        "Every pair of the lattice (incl. far-below texts needing several steps) x large x very_readable: mode-1 success implies the identical mode-2 "
+        "result; very_readable success implies ordinary success.",
+        "Lattice-bounded.", "DESIGN.md 4/C16"),
+    "C17": (T_SMALL + " with every side channel owned (fd 1/2, sys.stdout/err, audit hook on file writes, fresh cwd)",
+        "Every spelling of the spelling layer x mode x show x save_report, and every bulk list of 1-2 entries x save_report: plain calls are silent and "
+        "touch no file; previews/reports never change the result, never raise, and write only the documented report.",
+        "Writes observed through Python audit events and directory listings. Bounded by the spelling lattice.", "DESIGN.md 4/C17"),
+    "C18": ("explicit-state exploration of directory trees (states) under the transition 'run the command on the directory' applied twice, every "
+            "fault placement and every traversal-order permutation; differential oracle against solo runs",
+        "Every placement of <= 3 of 4 good stylesheets x every placement of <= 1 (thorough 2) of 5 fault kinds x repeated runs, and all 24 traversal "
+        "orders of the 4-file trees (seam: get_css_files): outputs byte-identical to solo runs, bad files reported and skipped, second run idempotent.",
+        "Permission faults cannot be produced as root. Bounded by the tree alphabet.", "DESIGN.md 4/C18"),
+    "C19": ("exhaustive enumeration of all strings up to length 3 (thorough 4) over a markup alphabet in every user-controlled slot; DOM-skeleton oracle",
+        "Every string over a 12-symbol markup alphabet in each of the 10 slots of both report generators, plus end-to-end carriers through the CLI and "
+        "save_report: the parsed tree equals the benign report's skeleton and shows the text verbatim after entity decoding.",
+        "Bounded by alphabet and length. Trusted: html.parser.", "DESIGN.md 4/C19"),
 }
 
 PENDING_REASON = "check not built yet in this session (planned, see DESIGN.md section 9); not claimed until it runs"
